@@ -157,6 +157,18 @@ def check_one(conn, rows, lay, acc, li):
     if back != want:
         acc.violation(f'pivot-roundtrip:{tag}', f'{show(q1)} on {rows!r}: un-pivoting gives {sorted(back, key=repr)!r}, un-pivoted query gives {sorted(want, key=repr)!r}', case)
         return
+    # the same statement object executed again (small tables only: the cost is a second execution): compiling a
+    # PIVOT BY statement must not change it
+    if len(rows) <= 2:
+        acc.count('re_executions')
+        try:
+            cur = conn.execute(q1)
+            again = (cur.fetchall(), [(d.name, d.datatype) for d in cur.description])
+        except Exception as e:
+            again = f'{type(e).__name__}: {e}'
+        if again != (got, [(d.name, d.datatype) for d in desc]):
+            acc.violation(f'pivot-reexecution:{tag}', f'{show(q1)} on {rows!r}: executing the same statement object a second time gives {again!r}, the first time {got!r}', case)
+            return
     acc.count('cells_compared', len(got) * (1 + len(keys) * len(others)))
     if len(un) < len(keys) * len({r[i1] for r in un}):
         acc.count('sparse_results')
